@@ -4,6 +4,7 @@ import (
 	"archive/zip"
 	"bytes"
 	"fmt"
+	"io"
 	"regexp"
 	"sort"
 	"strings"
@@ -432,6 +433,85 @@ func (w *fw) table(depth int) string {
 var foreignMediaNames = []string{"image1.png", "Image 01.PNG", "picture.jpeg", "image0.png", "image7", "image-1.png", "image99999999999999999999.png", "image2.jpg", "image3.emf", "IMAGE5.png", "image4.gif"}
 
 // MakeForeign builds a package.
+var reAnyTag = regexp.MustCompile(`<[^<>]*>`)
+
+// RespellPart writes one XML part in another legal spelling of the same infoset: a byte order mark in front, the
+// WordprocessingML vocabulary under another prefix, white space inside the root's end tag, a comment or white space
+// behind the root element, no XML declaration. It returns the new text and the name of what was done ("" = nothing).
+func RespellPart(r *rng.R, x, name string) (string, string) {
+	short := strings.TrimSuffix(name[strings.LastIndex(name, "/")+1:], ".xml")
+	const decl = `<?xml version="1.0" encoding="UTF-8" standalone="yes"?>`
+	switch r.Intn(6) {
+	case 0:
+		if !strings.HasPrefix(x, "\xef\xbb\xbf") {
+			return "\xef\xbb\xbf" + x, "byte-order-mark:" + short
+		}
+	case 1:
+		if strings.Contains(x, `xmlns:w="`+nsW+`"`) && !strings.Contains(x, "n0:") {
+			rep := strings.NewReplacer("<w:", "<n0:", "</w:", "</n0:", " w:", " n0:", "xmlns:w=", "xmlns:n0=")
+			return reAnyTag.ReplaceAllStringFunc(x, func(tag string) string {
+				if strings.HasPrefix(tag, "<?") || strings.HasPrefix(tag, "<!") {
+					return tag
+				}
+				return rep.Replace(tag)
+			}), "part-under-prefix-n0:" + short
+		}
+	case 2:
+		t := strings.TrimRight(x, " \t\r\n")
+		if i := strings.LastIndex(t, "</"); i > 0 && strings.HasSuffix(t, ">") && !strings.ContainsAny(t[i:len(t)-1], " \t\n>") {
+			return t[:len(t)-1] + []string{" ", "\n", "\t "}[r.Intn(3)] + ">" + x[len(t):], "white-space-in-root-end-tag:" + short
+		}
+	case 3:
+		return x + []string{"\n<!-- written by </exporter> 2.1 -->", "<!-- </w:" + short + "> -->\n", "\n<!-- a/b -->"}[r.Intn(3)], "comment-behind-root:" + short
+	case 4:
+		return x + []string{"\n", "\r\n\r\n", "  \n\t"}[r.Intn(3)], "white-space-behind-root:" + short
+	case 5:
+		if strings.HasPrefix(x, decl) {
+			return strings.TrimLeft(strings.TrimPrefix(x, decl), "\r\n"), "no-xml-declaration:" + short
+		}
+	}
+	return x, ""
+}
+
+// RespellPackage re-writes a package the way another producer would after loading and saving it unchanged: the parts
+// named (when present) each get one other spelling with probability 1/2, everything else is copied. It returns the
+// new package and what was done.
+func RespellPackage(r *rng.R, raw []byte, names ...string) ([]byte, []string) {
+	zr, err := zip.NewReader(bytes.NewReader(raw), int64(len(raw)))
+	if err != nil {
+		return raw, nil
+	}
+	want := map[string]bool{}
+	for _, n := range names {
+		want[n] = true
+	}
+	var feats []string
+	var buf bytes.Buffer
+	zw := zip.NewWriter(&buf)
+	for _, zf := range zr.File {
+		rc, err := zf.Open()
+		if err != nil {
+			return raw, nil
+		}
+		b, err := io.ReadAll(rc)
+		rc.Close()
+		if err != nil {
+			return raw, nil
+		}
+		if want[zf.Name] && r.Bool() {
+			x, feat := RespellPart(r, string(b), zf.Name)
+			if feat != "" {
+				b = []byte(x)
+				feats = append(feats, feat)
+			}
+		}
+		w, _ := zw.Create(zf.Name)
+		w.Write(b)
+	}
+	zw.Close()
+	return buf.Bytes(), feats
+}
+
 func MakeForeign(r *rng.R, opts ForeignOpts) *Foreign {
 	f := &Foreign{Parts: map[string][]byte{}}
 	w := &fw{r: r, f: f, ids: map[string]bool{}, opts: opts}
@@ -840,35 +920,10 @@ func MakeForeign(r *rng.R, opts ForeignOpts) *Foreign {
 				continue
 			}
 			x := string(b)
-			short := strings.TrimSuffix(strings.TrimPrefix(name, "word/"), ".xml")
 			for n := r.Range(1, 2); n > 0; n-- {
-				switch r.Intn(6) {
-				case 0:
-					if !strings.HasPrefix(x, "\xef\xbb\xbf") {
-						x = "\xef\xbb\xbf" + x
-						w.feature("byte-order-mark:" + short)
-					}
-				case 1:
-					if strings.Contains(x, `xmlns:w="`) {
-						x = strings.NewReplacer("<w:", "<n0:", "</w:", "</n0:", " w:", " n0:", "xmlns:w=", "xmlns:n0=").Replace(x)
-						w.feature("part-under-prefix-n0:" + short)
-					}
-				case 2:
-					if i := strings.LastIndex(x, ">"); i > 0 && strings.HasSuffix(x, "s>") && x[i-1] != '/' {
-						x = x[:i] + []string{" ", "\n", "\t "}[r.Intn(3)] + ">"
-						w.feature("white-space-in-root-end-tag:" + short)
-					}
-				case 3:
-					x += []string{"\n<!-- written by </exporter> 2.1 -->", "<!-- </w:" + short + "> -->\n", "\n<!-- a/b -->"}[r.Intn(3)]
-					w.feature("comment-behind-root:" + short)
-				case 4:
-					x += []string{"\n", "\r\n\r\n", "  \n\t"}[r.Intn(3)]
-					w.feature("white-space-behind-root:" + short)
-				case 5:
-					if strings.HasPrefix(x, hdr) {
-						x = strings.TrimPrefix(x, hdr)
-						w.feature("no-xml-declaration:" + short)
-					}
+				var feat string
+				if x, feat = RespellPart(r, x, name); feat != "" {
+					w.feature(feat)
 				}
 			}
 			f.Parts[name] = []byte(x)
